@@ -462,7 +462,7 @@ def getters_monitor(ctx, hs, impls, stream):
             cases.append("(%s, %s)" % (zl(flat(r["getters"][0], [])), zl(flat(r["getters"][1], []))))
             where.append((hi, k))
     try:
-        bad = ctx.monitor_stream(stream, HEADER, "list Z * list Z", "(fun p => zlist_eqb (fst p) (snd p))", cases, shard=100)
+        bad = ctx.monitor_stream(stream, HEADER, "list Z * list Z", "(fun p => zlist_eqb (fst p) (snd p))", cases, shard=30)
     except core.ModelEvalError as e:
         ctx.broken.append({"kind": "monitor", "name": stream, "detail": str(e)[-600:]})
         bad = [i for i, (hi, k) in enumerate(where) if not impls[hi]["steps"][k]["unchanged"]]
@@ -513,6 +513,32 @@ RULE = ("S-cw: histories of 1..%d schedule() invocations of the real ClockworkSc
         "request carried over")
 
 
+def evaluate(ctx, groups, label, getters=False, starts=False):
+    """One round per kind of check over all the histories of all variants (+ the corpus): the generated Coq files of a round
+    are compiled in parallel, so few big rounds cost much less wall time than many small ones."""
+    seeds = corpus()
+    if seeds:
+        groups = groups + [("corpus", seeds, core.run_impl("clockwork.py", {"histories": seeds})["histories"])]
+    hs = [h for _, g, _ in groups for h in g]
+    impls = [im for _, _, g in groups for im in g]
+    if getters:
+        getters_monitor(ctx, hs, impls, label + ":getters")
+    if starts:
+        starts_monitor(ctx, hs, impls, label + ":starts")
+    strip(hs, impls)
+    try:
+        correspondence(ctx, hs, impls, label)
+    except core.ModelEvalError as e:
+        ctx.broken.append({"kind": "correspondence", "name": label, "detail": str(e)[-600:]})
+    nat = [(h, im) for m, g, gi in groups if m != "adversarial" for h, im in zip(g, gi)]
+    adv = [(h, im) for m, g, gi in groups if m == "adversarial" for h, im in zip(g, gi)]
+    if nat:
+        monitors(ctx, [x[0] for x in nat], [x[1] for x in nat], label, once=True)
+    if adv:
+        monitors(ctx, [x[0] for x in adv], [x[1] for x in adv], label + "-adversarial", once=False)
+    ctx.cov["streams"][label]["by_variant"] = {m: len(g) for m, g, _ in groups}
+
+
 def run(ctx):
     ctx.fingerprint(FILES)
     ctx.translate(["Clockwork"])
@@ -522,7 +548,7 @@ def run(ctx):
     plan = [("natural", 130 if quick else 2000), ("tight", 60 if quick else 800), ("ties", 50 if quick else 600),
             ("adversarial", 45 if quick else 500), ("load", 30 if quick else 300), ("sim", 15 if quick else 200)]
     ctx.rules.append(RULE % size)
-    dist_all = {}
+    dist_all, groups = {}, []
     for mode, n in plan:
         hs, impls = generate(ctx, n, size, mode)
         strip(hs, impls)
@@ -531,12 +557,7 @@ def run(ctx):
         dist_all[mode] = dist
         if mode == "natural":
             ctx.sample({"stream": "S-cw", "history": hs[0], "implementation": expected(impls[0])})
-        stream = "S-cw" if mode == "natural" else "S-cw-" + mode
-        try:
-            correspondence(ctx, hs, impls, stream)
-        except core.ModelEvalError as e:
-            ctx.broken.append({"kind": "correspondence", "name": stream, "detail": str(e)[-600:]})
-        monitors(ctx, hs, impls, stream, once=(mode != "adversarial"))
+        groups.append((mode, hs, impls))
     ctx.cov["input_distribution"] = dist_all
-    run_corpus(ctx)
+    evaluate(ctx, groups, "S-cw")
     return built
